@@ -91,6 +91,7 @@ type nilAnalyzer struct {
 	nilImpl    map[*ssa.Function]int // +1: true result implies receiver non-nil; -1: false result implies; 0: none
 	niDone     map[*ssa.Function]bool
 	viol       map[string]nilViolation
+	raw        bool // C20: nothing has been validated – wrappers may be unresolved, entries may be nil
 	provedKeys map[string]string
 	keyCache   map[ssa.Value]keyInfo
 	edgeCache  map[*ssa.Function]map[ssa.CallInstruction][]*ssa.Function
@@ -202,7 +203,8 @@ func (a *nilAnalyzer) accessKey0(v ssa.Value, depth int) (string, lastStep) {
 		case *ssa.IndexAddr:
 			// element of a slice/array: treated as a range element (entries are non-nil, see axioms)
 			base, _ := a.accessKey(ad.X, depth+1)
-			return base + "[i]@" + x.Name(), lastStep{kind: "range", desc: "slice element"}
+			_, isM := a.isModel(x.Type())
+			return base + "[i]@" + x.Name(), lastStep{kind: "range", desc: "slice element", model: isM}
 		case *ssa.Global:
 			return "g:" + ad.Name(), lastStep{kind: "other", desc: "global " + ad.Name()}
 		default:
@@ -247,7 +249,8 @@ func (a *nilAnalyzer) accessKey0(v ssa.Value, depth int) (string, lastStep) {
 				return fmt.Sprintf("ta:%p", t), lastStep{kind: "assert", desc: "comma-ok type assertion"}
 			}
 		case *ssa.Next:
-			return fmt.Sprintf("rng:%p/%d", t, x.Index), lastStep{kind: "range", desc: "range element"}
+			_, isM := a.isModel(x.Type())
+			return fmt.Sprintf("rng:%p/%d", t, x.Index), lastStep{kind: "range", desc: "range element", model: isM}
 		case *ssa.Call:
 			return fmt.Sprintf("call:%p/%d", t, x.Index), a.callStep(t, x.Index)
 		}
@@ -411,6 +414,9 @@ func (a *nilAnalyzer) optional(ls lastStep, ty types.Type) (bool, string) {
 		if !ls.model {
 			return false, ""
 		}
+		if a.raw {
+			return true, "document field " + ls.desc + " (nil when absent from the input)"
+		}
 		if ls.field == "Value" {
 			return false, "" // reference wrappers are resolved in a loaded, validated document
 		}
@@ -418,6 +424,10 @@ func (a *nilAnalyzer) optional(ls lastStep, ty types.Type) (bool, string) {
 			return false, ""
 		}
 		return true, "optional document field " + ls.desc
+	case "range":
+		if a.raw && ls.model {
+			return true, "entry of a document collection (JSON null yields a nil entry)"
+		}
 	case "lookup":
 		return true, "map lookup (nil when the key is absent)"
 	case "call":
@@ -645,7 +655,7 @@ func (a *nilAnalyzer) condFacts(c ssa.Value, sense bool, out map[string]nilFact)
 		}
 		// validated-document axiom: a schema whose type is/includes "array" has items
 		// (Schema.validate: "when schema type is 'array', schema 'items' must be non-null")
-		if sense && (sc.Name() == "Is" || sc.Name() == "Includes") && len(x.Common().Args) == 2 {
+		if !a.raw && sense && (sc.Name() == "Is" || sc.Name() == "Includes") && len(x.Common().Args) == 2 {
 			if c, ok := x.Common().Args[1].(*ssa.Const); ok && c.Value != nil && c.Value.Kind() == constant.String && constant.StringVal(c.Value) == "array" {
 				k, _ := a.accessKey(x.Common().Args[0], 0)
 				if strings.HasSuffix(k, ".Type") {
@@ -1377,9 +1387,14 @@ func (a *nilAnalyzer) gorillaRouteKeysVerified() bool {
 
 // crashNil runs the analysis to a fixpoint over the requirement summaries and reports.
 func crashNil(r *core.Report, cs *crashScope) {
+	crashNilMode(r, cs, false, 35)
+}
+
+func crashNilMode(r *core.Report, cs *crashScope, raw bool, floor int) {
 	p := r.Prog
-	r.RunRule(cs.id+".nil", "optional-pointer dereferences: every dereference (field access, *p, method call on an interface, call of a function value) of a pointer obtained from an optional field of the document model, from a map lookup, from a comma-ok assertion or from a repo function that may return nil is preceded, on every path, by a nil test of the same access path — decided by a path-sensitive nil-ness dataflow on go/ssa with disjunctive states; a function that dereferences a parameter (or a field path below it) without a test passes the obligation to its callers (requirement summaries, fixpoint over the call graph); validated-document axioms: reference wrappers are resolved, Operation.Responses/T.Paths/T.Info are present, a schema whose type includes array has items, slice and range elements are non-nil", 35, func() {
+	r.RunRule(cs.id+".nil", "optional-pointer dereferences: every dereference (field access, *p, method call on an interface, call of a function value) of a pointer obtained from an optional field of the document model, from a map lookup, from a comma-ok assertion or from a repo function that may return nil is preceded, on every path, by a nil test of the same access path — decided by a path-sensitive nil-ness dataflow on go/ssa with disjunctive states; a function that dereferences a parameter (or a field path below it) without a test passes the obligation to its callers (requirement summaries, fixpoint over the call graph); validated-document axioms: reference wrappers are resolved, Operation.Responses/T.Paths/T.Info are present, a schema whose type includes array has items, slice and range elements are non-nil (for C20 none of these axioms is used: nothing has been validated)", floor, func() {
 		a := newNilAnalyzer(p, cs)
+		a.raw = raw
 		maxRounds := 8
 		if v := os.Getenv("KINLINT_NILROUNDS"); v != "" {
 			fmt.Sscanf(v, "%d", &maxRounds)
